@@ -1,8 +1,10 @@
 package c18
 
 import (
+	"encoding/json"
 	"fmt"
 	"os"
+	"path/filepath"
 	"strings"
 	"testing"
 
@@ -24,15 +26,65 @@ func TestExplore(t *testing.T) {
 			}
 			forms := []gen.Val{}
 			forms = append(forms, prelude()...)
-			forms = append(forms, L(S("defun"), S("f0"), L(S("x")), L(S("list"), S("x")), body), L(S("list"), L(S("f0"), I(7))))
+			if os.Getenv("C18_EXPLORE") == "top" {
+				if strings.HasPrefix(k, "tail-self") {
+					continue
+				}
+				cs.Top, cs.Depth = true, 0
+				forms = append(forms, L(S("set"), QS("x"), I(7)), body)
+			} else {
+				forms = append(forms, L(S("defun"), S("f0"), L(S("x")), L(S("list"), S("x")), body), L(S("list"), L(S("f0"), I(7))))
+			}
 			cs.Forms = forms
 			cs.Seps = []string{" "}
-			ctx := &vcommon.Ctx{}
+			ctx := &vcommon.Ctx{Replay: true}
 			if f := check(cs, ctx); f != nil {
 				fmt.Printf("%s/%s: %s: %s\n", k, w, f.Key, strings.SplitN(f.Msg, "\n", 2)[0])
 			} else if len(ctx.Classes()) > 0 && ctx.Classes()[0] == "skip/reference" && w == "" {
 				fmt.Printf("SKIPPED %s\n", k)
 			}
 		}
+	}
+}
+
+// TestWritePending (C18_PENDING=dir) writes one minimal replay per class that
+// the unchanged tree violates and that is excluded from the search (pendingKinds /
+// pendingWraps).  `python3 check.py --replay <file>` evaluates it.
+func TestWritePending(t *testing.T) {
+	dir := os.Getenv("C18_PENDING")
+	if dir == "" {
+		t.Skip()
+	}
+	mk := func(kind, w string, top bool) Case {
+		body := failFormIn(kind, "f0")
+		cs := Case{Kind: kind, Depth: 1, Seps: []string{" "}}
+		if w != "" {
+			body = wrap(w, body)
+			cs.Wraps = []string{w}
+		}
+		if top {
+			cs.Top, cs.Depth = true, 0
+			cs.Forms = []gen.Val{L(S("set"), QS("x"), I(7)), body}
+		} else {
+			cs.Forms = []gen.Val{L(S("defun"), S("f0"), L(S("x")), L(S("list"), S("x")), body), L(S("list"), L(S("f0"), I(7)))}
+		}
+		return cs
+	}
+	for name, cs := range map[string]Case{
+		"lead-a-let-bad-binding-after-load-at-top-level": mk("let-bad-binding-after-load", "", true),
+		"lead-b-eval-positionless-symbol-in-function":    mk("eval-built-symbol", "", false),
+		"lead-c-compound-head-not-a-function":            mk("head-compound-nonfn", "", false),
+		"lead-d-search-sorted-callback-frame":            mk("type", "search-sorted-callback", false),
+	} {
+		f := check(cs, &vcommon.Ctx{Replay: true})
+		if f == nil {
+			t.Errorf("%s: no failure", name)
+			continue
+		}
+		raw, _ := json.MarshalIndent(map[string]any{"property": "C18", "sub": "failing-programs", "key": f.Key, "msg": f.Msg, "case": cs}, "", " ")
+		if err := os.WriteFile(filepath.Join(dir, name+".json"), append(raw, '\n'), 0o644); err != nil {
+			t.Fatal(err)
+		}
+		fmt.Printf("%s: %s\n%s\n", name, f.Key, f.Msg)
 	}
 }
